@@ -79,3 +79,48 @@ Proof.
   - vm_compute. split; reflexivity.
   - vm_compute. reflexivity.
 Qed.
+
+(* ---------------------------------------------------------------------------------------------------------------------
+   Several forwarding threads (World.v): each thread has its own PIT; the link service hands an Interest to the thread hashed
+   from its name and a Data to the thread named by its 6-byte PIT token or, without one, to the threads hashed from every
+   prefix of its name.  h is the (abstract) name-to-thread hash. *)
+From Fw Require Import World Dispatch.
+
+(* dispatch_complete: a thread the Data is not handed to holds no pending record the Data satisfies (records of thread k
+   are those of Interests whose name hashes to k) *)
+Theorem dispatch_complete : forall T (h : thread_fun) d k (sp : pend),
+  k < T -> (forall p, In p sp -> h (p_name p) = k) ->
+  existsb (N.eqb k) (fst (dispatch_data T h d)) = false ->
+  forall p, In p sp -> sat_rec k d p = false.
+Proof. exact Dispatch.dispatch_complete. Qed.
+Print Assumptions dispatch_complete.
+
+(* after every time-monotone history of the T-thread forwarder every thread satisfies the abstraction relation with its own
+   pending table, whose records are exactly of names hashed to that thread *)
+Theorem c01_world_refines_pending : forall T (h : thread_fun) (hist : list (wev * choice)) w t,
+  WInv T h t w -> wmono t hist -> let '(w', t') := wrun T h w t hist in WInv T h t' w'.
+Proof. exact wrun_inv. Qed.
+Print Assumptions c01_world_refines_pending.
+
+(* ... and a Data arriving then is delivered, by the threads together, only and completely to the pending Interests it
+   satisfies: (a) and (b) hold for every thread's emissions against that thread's table, whether or not the link service
+   handed the Data to the thread *)
+Theorem c01_world_data_delivery : forall T (h : thread_fun) t (w : list (fw * pend)) now d ch,
+  WInv T h t w -> t <= now ->
+  forall s sp, In (s, sp) w ->
+  let os := snd (pstep T h (WPacket (EData now d)) ch (s, sp)) in
+  c01_data_only_pending (faces s) (tid s) sp d os = true /\
+  c01_data_complete (faces s) (tid s) now sp d os = true.
+Proof. exact world_data_delivery. Qed.
+Print Assumptions c01_world_data_delivery.
+
+(* the thread states of this world are those of the extracted World.wstep, and the initial world satisfies the invariant *)
+Theorem c01_world_is_wstep : forall T h we ch (w : list (fw * pend)),
+  fst (fst (fst (wstep T h (map fst w) we ch))) = map fst (wpstep T h we ch w).
+Proof. exact wpstep_wstep. Qed.
+Print Assumptions c01_world_is_wstep.
+
+Theorem c01_world_init : forall regs dlife (Tn : nat) h,
+  WInv (N.of_nat Tn) h 0 (map (fun s => (s, [])) (winit regs dlife Tn)).
+Proof. exact winit_inv. Qed.
+Print Assumptions c01_world_init.
